@@ -158,6 +158,10 @@ def main(ctx: Ctx):
     batch(ctx, 4000 if ctx.tier == "quick" else 120000)
     from . import recv_common
     recv_common.run_for(ctx, "C06")
+    from . import app_common
+    app_common.run_extra(ctx, "C06", app_common.fam_app_text, "app_text",
+                         cross={"C13.delivered_something_the_server_did_not_send (duplicate?)", "C13.delivered_content_differs",
+                                "C13.events_out_of_order_or_skipped", "C14.run_did_not_end_after_protocol_violation"})
     ctx.exhaustive = True
     ctx.trusted += ["TLC 1.8 / CommunityModules", "harness projection (vf/)"]
     ctx.assumptions += ["pure-Python validator path (wsaccel absent in this environment)"]
